@@ -137,6 +137,9 @@ def gen_num(r: random.Random, kind: str):
     if kind == 'cnt':
         n = r.randint(0, 4)
         return r.choice([['i', n], ['f', float(n).hex()], ['F', str(n)]])
+    if kind == 'bit':
+        n = r.choice([0, 1])
+        return r.choice([['i', n], ['f', float(n).hex()]])
     if kind == 'idx':
         n = r.choice([0, 0, 1, 1, 2, 3, 5, -1])
         return r.choice([['i', n], ['f', float(n).hex()]])
@@ -168,7 +171,7 @@ def gen_list(r: random.Random, lo: int, hi: int, ids: list, allow_special=False)
 
 
 def gen_arg(r: random.Random, kind: str, ids: list):
-    if kind in ('num', 'nz', 'pos', 'num_small', 'cnt', 'idx', 'any_num'):
+    if kind in ('num', 'nz', 'pos', 'num_small', 'cnt', 'idx', 'bit', 'any_num'):
         return gen_num(r, kind)
     if kind == 'big':
         return r.choice(BIG)
@@ -266,7 +269,7 @@ def catalogue(ns: str, name: str, sig: list[str]) -> list:
     k = (ns, name)
     if k not in _CATALOGUE:
         rr = random.Random(f'catalogue:{ns}:{name}')
-        _CATALOGUE[k] = [[_coerce(a, _MODES[e % len(_MODES)]) if s_ not in ('cnt', 'idx', 'big', 'biglist') else a
+        _CATALOGUE[k] = [[_coerce(a, _MODES[e % len(_MODES)]) if s_ not in ('cnt', 'idx', 'bit', 'big', 'biglist') else a
                           for a, s_ in zip(gen_args(rr, sig), sig)] for e in range(CATALOGUE)]
     return _CATALOGUE[k]
 
@@ -450,7 +453,8 @@ def gen_run(seed: int, tier: str, sub: str) -> dict:
         cfg['starve'] = 0.0
         cfg['opcode'] = False
         cfg['scribble'] = True
-        off = (13 if sub == 'faults' else 0) + 4 * (rot // 2)
+        off = (14 if sub == 'faults' else 0) + 4 * rot
+        parity = (rot // 8) % 2          # the other half of every catalogue once all functions have had a turn
         names = [m['BOUNDARY'][(off + q) % len(m['BOUNDARY'])] for q in range(4)]
         threads = []
         for t in range(nthreads):
@@ -461,7 +465,7 @@ def gen_run(seed: int, tier: str, sub: str) -> dict:
                 cname = CTX_NAMES[sum(map(ord, name)) % len(CTX_NAMES)]
                 cat = catalogue('main', name, m['SIG'][name])
                 # every other argument tuple of the catalogue, the other half in the next round
-                for e in range(rot % 2, CATALOGUE, 2):
+                for e in range(parity, CATALOGUE, 2):
                     ops.append({'op': 'call', 'fn': ['main', name], 'key': {'root': ['main', name], 'chain': []},
                                 'args': cat[(e + 2 * t) % CATALOGUE], 'ctx': cname, 'rt': 'default' if e % 4 else 'own', 'cancel': None})
             threads.append(ops)
